@@ -693,6 +693,9 @@ Definition roundtrippable (fs : str) : bool :=
 Definition dispatch_parse (name : string) (a : list tok) : option (list tok * list tok) :=
   match name, a with
   | "p_epoch"%string, [TL s] => Some (tpres tepoch (epoch_from_str s), nopanic)
+  (* well-formed text with one field out of range: an error, never another date *)
+  | "p_reject"%string, [TL s] => Some (tpres tepoch (epoch_from_str s), [TErrAny])
+  | "p_reject_fmt"%string, [TL f; TL s] => Some (tpres tepoch (from_format_str s f), [TErrAny])
   | "p_greg"%string, [TL s] => Some (tpres tepoch (from_gregorian_str s), nopanic)
   | "p_dur"%string, [TL s] => Some (tpres tdur (duration_from_str s), nopanic)
   | "p_ts"%string, [TL s] => Some (match ts_from_str s with Some t => [TZ 1; TZ (ts_id t)] | None => [TErr E_TimeSystem] end, nopanic)
